@@ -95,7 +95,7 @@ Print Assumptions argument_reference_by_value.
 Theorem callable_kinds rec ip h w sp v :
   runG rec value ip h w (e <- proc_functional sp (inr v) true ;; Ret (VNil)) =
   match v with
-  | VBool _ | VDict _ | VList _ | VStr _ | VBytes _ | VErr _ _ | VFun _ => DoneG h w (inl VNil) 0
+  | VBool _ | VDict _ | VList _ | VStr _ | VBytes _ | VErr _ _ | VFun _ | VComplex _ _ => DoneG h w (inl VNil) 0
   | _ => DoneG h w (inr (mkerr c_type sp)) 0 end.
 Proof. exact (CallRules.callable_kinds rec ip h w sp v). Qed.
 Print Assumptions callable_kinds.
@@ -167,4 +167,16 @@ Theorem call_dict_arity rec ip h w sp d argv :
   runG rec value ip h w (apply_body (EDict d) sp argv) = DoneG h w (inr (mkerr c_value sp)) 0.
 Proof. exact (CallRules.call_dict_arity rec ip h w sp d argv). Qed.
 Print Assumptions call_dict_arity.
+
+Theorem kind_of_complex rec ip h w sp re im :
+  runG rec evalr ip h w (proc_functional sp (inr (VComplex re im)) true) = DoneG h w (inl (ESeq (VComplex re im))) 0.
+Proof. exact (CallRules.kind_of_complex rec ip h w sp re im). Qed.
+Print Assumptions kind_of_complex.
+
+(* complex number: position 0 is the real part, position 1 the imaginary part (as reals); any other position is the value error *)
+Theorem call_complex rec ip h w sp re im i :
+  runG rec value ip h w (apply_body (ESeq (VComplex re im)) sp [VInt i]) =
+  if i =? 0 then DoneG h w (inl (VFloat re)) 0 else if i =? 1 then DoneG h w (inl (VFloat im)) 0 else DoneG h w (inr (mkerr c_value sp)) 0.
+Proof. exact (CallRules.call_complex rec ip h w sp re im i). Qed.
+Print Assumptions call_complex.
 
